@@ -592,10 +592,173 @@ func main() {
 		f.n.Close()
 	}
 	_ = consensus.P2PEventPostSingleCommits
+	// ---- certificate pool as a state machine: every operation sequence over old and recent commits --------------------
+	{
+		pe, pn, psel := poolHistories(r, viol)
+		evals += pe
+		nontrivial += pn
+		r.Set("pool_histories", pe)
+		r.Set("pool_selections_checked", psel)
+	}
 	r.Set("evaluations", evals)
 	r.Set("distinct_nontrivial", nontrivial)
 	r.Set("rule", "per certificate threshold: every height 0..mhp+1 with the empty commit; every non-empty signer subset of the validators active at every height 1..mhp+1 (a 5th validator joins at height 5) through verifyAggregateCommit against the LIP-0061 predicate, and for every accepted one every single-bit flip, longer bitmap, signature over another height/chain, missing/extra signer, shifted height; every subset as pool content -> GetAggregateCommit -> verification; every single-commit message of {active, joins later, never validator} x {right,wrong block ID} x {own, garbage, other validator's, other height's signature} x height through the gossip validator. non-trivial = accepted aggregates, non-empty own aggregates, admitted single commits")
 	r.Finish()
+}
+
+// poolHistories drives the real certificate.Pool with every sequence of <=depth operations over
+//   add(c) for six commits (heights 10, 20, 160 x two validators; as the callers do, only when !Has(c)),
+//   select(maxHeightPrecommitted in {50,150,300}, limit in {2,10}) - the selection is kept by the caller,
+//   upgrade(last selection)
+// so that commits are old (more than 100 below the precommitted height: re-selected although gossiped) and recent.
+// After every operation: the pool holds every added commit exactly once (by block ID and validator), a selection
+// contains pool members only and at most limit of them, and every selection handed out earlier is unchanged.
+func poolHistories(r *vlib.Run, viol func(key, what string, c caseT)) (int64, int64, int64) {
+	chainID := []byte{9, 9, 9, 9}
+	commits := []*certificate.SingleCommit{}
+	for _, h := range []uint32{10, 20, 160} {
+		for v := 0; v < 2; v++ {
+			id := crypto.Hash([]byte{byte(h), 77})
+			hd := &blockchain.BlockHeader{Version: 2, Height: h, ID: id, StateRoot: crypto.Hash([]byte{1}), ValidatorsHash: crypto.Hash([]byte{2}), AggregateCommit: &blockchain.AggregateCommit{}}
+			k := node.KeysOf(v)
+			commits = append(commits, certificate.NewSingleCommit(hd, k.Address, chainID, k.BLSPriv))
+		}
+	}
+	name := func(c *certificate.SingleCommit) string {
+		return fmt.Sprintf("h%d/%x", c.Height(), []byte(c.ValidatorAddress())[:2])
+	}
+	type op struct {
+		kind  string
+		i     int
+		mhp   uint32
+		limit int
+	}
+	ops := []op{}
+	for i := range commits {
+		ops = append(ops, op{kind: "add", i: i})
+	}
+	for _, mhp := range []uint32{50, 150, 300} {
+		for _, lim := range []int{2, 10} {
+			ops = append(ops, op{kind: "select", mhp: mhp, limit: lim})
+		}
+	}
+	ops = append(ops, op{kind: "upgrade"})
+	depth := 6
+	if r.Thorough() {
+		depth = 7
+	}
+	hasSelect := func(seq []int) bool {
+		for _, x := range seq {
+			if ops[x].kind == "select" {
+				return true
+			}
+		}
+		return false
+	}
+	var histories, nontrivial, sels int64
+	var rec func(seq []int)
+	run := func(seq []int) {
+		pool := certificate.NewPool()
+		added := map[int]bool{}
+		type held struct {
+			sel  certificate.SingleCommits
+			want []string
+		}
+		helds := []held{}
+		desc := []string{}
+		var last certificate.SingleCommits
+		for _, oi := range seq {
+			o := ops[oi]
+			switch o.kind {
+			case "add":
+				desc = append(desc, "add("+name(commits[o.i])+")")
+				if !pool.Has(commits[o.i]) {
+					pool.Add(commits[o.i])
+					added[o.i] = true
+				}
+			case "select":
+				desc = append(desc, fmt.Sprintf("select(mhp=%d,limit=%d)", o.mhp, o.limit))
+				sel := pool.Select(o.mhp, o.limit)
+				sels++
+				want := []string{}
+				for _, c := range sel {
+					want = append(want, name(c))
+					if !pool.Has(c) {
+						viol("pool-selection-not-in-pool", fmt.Sprintf("after %v the selection contains %s, which the pool does not hold", desc, name(c)), caseT{Part: "pool-history", Tamper: fmt.Sprint(desc)})
+					}
+				}
+				if len(sel) > o.limit {
+					viol("pool-selection-above-limit", fmt.Sprintf("after %v the selection has %d commits", desc, len(sel)), caseT{Part: "pool-history", Tamper: fmt.Sprint(desc)})
+				}
+				helds = append(helds, held{sel, want})
+				last = sel
+				if len(sel) > 0 {
+					nontrivial++
+				}
+			case "upgrade":
+				desc = append(desc, "upgrade(last selection)")
+				if last != nil {
+					pool.Upgrade(last)
+				}
+			}
+			// every added commit exactly once
+			total := 0
+			for _, h := range []uint32{10, 20, 160} {
+				seen := map[string]int{}
+				for _, c := range pool.Get(h) {
+					seen[name(c)]++
+					total++
+				}
+				for n, k := range seen {
+					if k > 1 {
+						viol("pool-holds-duplicate-single-commit", fmt.Sprintf("after %v the pool holds %s %d times", desc, n, k), caseT{Part: "pool-history", Tamper: fmt.Sprint(desc)})
+					}
+				}
+			}
+			if total != len(added) || pool.Size() != len(added) {
+				viol("pool-content-differs-from-added", fmt.Sprintf("after %v the pool holds %d commits (Size %d), %d distinct ones were added", desc, total, pool.Size(), len(added)), caseT{Part: "pool-history", Tamper: fmt.Sprint(desc)})
+			}
+			for _, hl := range helds {
+				got := []string{}
+				for _, c := range hl.sel {
+					got = append(got, name(c))
+				}
+				if fmt.Sprint(got) != fmt.Sprint(hl.want) {
+					viol("pool-selection-changed-after-return", fmt.Sprintf("after %v a selection handed out earlier as %v now reads %v", desc, hl.want, got), caseT{Part: "pool-history", Tamper: fmt.Sprint(desc)})
+				}
+			}
+		}
+		histories++
+	}
+	rec = func(seq []int) {
+		if len(seq) > 0 {
+			run(seq)
+		}
+		if len(seq) == depth || r.Expired() {
+			return
+		}
+		for oi := range ops {
+			// operations that cannot change anything are not extended: adding a commit the sequence added before (the callers
+			// ask Has first), upgrading when nothing was selected since the last upgrade
+			if ops[oi].kind == "add" {
+				dup := false
+				for _, x := range seq {
+					if x == oi {
+						dup = true
+					}
+				}
+				if dup {
+					continue
+				}
+			}
+			if ops[oi].kind == "upgrade" && (len(seq) == 0 || ops[seq[len(seq)-1]].kind == "upgrade" || !hasSelect(seq)) {
+				continue
+			}
+			rec(append(append([]int{}, seq...), oi))
+		}
+	}
+	rec(nil)
+	return histories, nontrivial, sels
 }
 
 func varint(x uint64) []byte {
